@@ -14,6 +14,16 @@ Example take_until_anchor :
   Gen.C09.take_until_patterns =
   map s2n ["(?:\\.|[^'])*"; "(?:\\.|[^""])*"; "[^'""%]*"]%string.
 Proof. reflexivity. Qed.
+(* the two take_until_any call sites and the stop-character tuples of _detailed_tag_parser, as written in the source
+   (ast.unparse); since fbbed58 there is no call with QUOTE_CHARS any more *)
+Example take_until_calls_anchor :
+  Gen.C09.take_until_calls =
+  map s2n ["take_until_any((quote_char,), allow_escapes=True)"; "take_until_any(QUOTE_OR_PERCENT)"]%string.
+Proof. reflexivity. Qed.
+Example scan_stop_chars_anchor :
+  Gen.C09.scan_stop_chars =
+  map s2n ["QUOTE_CHARS = (""'"", '""')"; "QUOTE_OR_PERCENT = (*QUOTE_CHARS, '%')"]%string.
+Proof. reflexivity. Qed.
 Example py_isspace_anchor : Gen.C09.py_space_chars = py_space_chars.
 Proof. reflexivity. Qed.
 Example token_type_anchor :
